@@ -19,6 +19,10 @@ import (
 // started again and left to run to quiescence.
 //
 // Input: as driver "pipe" plus kill=<point>:<k> | killms=<ms> | stop=<point>:<k>
+//   mode=statuses  most seeds' own URLs answer 401/403/404/410/451/408/429/500/502 (small or empty bodies) or carry one of the
+//                  two marks of a challenge page only: statuses the discard policy keeps - "finished implies captured" covers them
+//   exq=1          the path or query of three rows in four mentions an excluded host (archive.org, archive-it.org: always
+//                  excluded; 127.0.0.9: this harness's --exclude-host): the rows' HOSTS are in scope, so they are crawled
 
 type lqRow struct {
 	id, value, status string
@@ -66,7 +70,7 @@ func readLQ(jobDir string) ([]lqRow, error) {
 func execCrash(input string) Result {
 	dir, err := os.MkdirTemp("", "zv-crash-")
 	if err != nil {
-		return Result{Term: "CC [] [] [] [] [] [] [] [] [] false false false 0 0 0 false", Tags: []string{"mktemp-failed"}}
+		return Result{Term: "CC [] [] [] [] [] [] [] [] [] false false false 0 0 0 false []", Tags: []string{"mktemp-failed"}}
 	}
 	if os.Getenv("ZV_KEEP") == "" {
 		defer os.RemoveAll(dir)
@@ -83,6 +87,21 @@ func execCrash(input string) Result {
 	}
 	sp.TimeoutMs = 25000
 	sp.MaxHops = 0
+	if kv["exq"] == "1" {
+		// exclusion is by HOST: a row whose path or query merely mentions an excluded host is in scope like any other row
+		for i := range sp.LQRows {
+			v := sp.LQRows[i].Value
+			switch (sp.SiteSeed + uint64(i)) % 4 {
+			case 0:
+				v += "?to=http%3A%2F%2Farchive.org%2Fdetails%2Fx" // (already in the form the crawler normalises a query to)
+			case 1:
+				v = strings.TrimSuffix(v, ".html") + "/web.archive-it.org/page.html"
+			case 2:
+				v += "?h=127.0.0.9&r=1"
+			}
+			sp.LQRows[i].Value = v
+		}
+	}
 	if kv["badrow"] == "1" {
 		// a row the queue cannot parse, handed out before the others: lq discards it (reports it finished); the rows after
 		// it must be treated as always
@@ -115,7 +134,8 @@ func execCrash(input string) Result {
 	}
 	// run 1 events: claimed / deleted ids, seeds that were pre-processed (their URL entered the seen-store),
 	// captures acknowledged by the WARC writer (arch.written) per seed
-	var claimed, deleted1, preprocessed, finished1 []string
+	var claimed, deleted1, preprocessed, finished1, fetched1 []string
+	f1 := map[int]bool{}
 	badFinish := 0
 	seenPre := map[string]bool{}
 	written := map[string][]string{} // seed id -> URLs
@@ -153,6 +173,14 @@ func execCrash(input string) Result {
 		case "arch.written":
 			if len(e.fields) >= 3 {
 				written[e.fields[2]] = append(written[e.fields[2]], e.fields[1])
+			}
+		case "arch.fetch":
+			// a request for the seed's own URL is about to be sent (the item is the seed itself)
+			if len(e.fields) >= 3 && e.fields[0] == e.fields[2] {
+				if i, ok := sid[e.fields[0]]; ok && !f1[i] {
+					f1[i] = true
+					fetched1 = append(fetched1, strconv.Itoa(i))
+				}
 			}
 		case "kill":
 			killed = true
@@ -204,7 +232,8 @@ func execCrash(input string) Result {
 			i, _ := strconv.Atoi(x)
 			u := strings.NewReplacer("{A}", hostA, "{B}", hostB).Replace(sp.LQRows[i].Value)
 			res := site.lookup(u)
-			if res.drop || res.stall || res.cfMitigate || have[u] {
+			if res.drop || res.stall || (res.cfMitigate && res.status == 403) || have[u] {
+				// (a challenge page is a 403 that ALSO carries "cf-mitigated: challenge": only that is discarded by default)
 				continue
 			}
 			discarded := false
@@ -254,9 +283,18 @@ func execCrash(input string) Result {
 	}
 	sort.Strings(left2)
 	complete2 := res2 != nil && res2.StopReturned && !res2.TimedOut && status2 == ""
-	term := fmt.Sprintf("CC %s %s %s %s %s %s %s %s %s %s %s %s %d %d %d %s", coqList(all), coqList(claimed), coqList(finished1), coqList(deleted1), coqList(preprocessed),
+	for _, x := range deleted1 {
+		if i, _ := strconv.Atoi(x); !f1[i] {
+			u := sp.LQRows[i].Value
+			if len(evs1) > 0 && evs1[0].kind == "run" && len(evs1[0].fields) >= 2 {
+				u = strings.NewReplacer("{A}", "127.0.0.2:"+evs1[0].fields[1], "{B}", "127.0.0.3:"+evs1[0].fields[1]).Replace(u)
+			}
+			note(fmt.Sprintf("crash case [%s]: seed %s (%s) was reported finished and deleted from the queue in run 1, but its URL was never requested", input, sp.LQRows[i].ID, u))
+		}
+	}
+	term := fmt.Sprintf("CC %s %s %s %s %s %s %s %s %s %s %s %s %d %d %d %s %s", coqList(all), coqList(claimed), coqList(finished1), coqList(deleted1), coqList(preprocessed),
 		coqList(fresh1), coqList(claimed1), coqList(fetched2), coqList(left2), coqBool(complete2), coqBool(sp.StopAt == nil), coqBool(sp.KillAt != nil),
-		missing+uncaptured, scan1.MidFileDefects, badFinish, coqBool(sp.Seencheck))
+		missing+uncaptured, scan1.MidFileDefects, badFinish, coqBool(sp.Seencheck), coqList(fetched1))
 	mode := "kill"
 	point := "time"
 	switch {
@@ -270,6 +308,12 @@ func execCrash(input string) Result {
 		fmt.Sprintf("partial_tails:%d", scan1.PartialTails)}
 	if errDB != nil {
 		tags = append(tags, "nodb")
+	}
+	if sp.SiteMode != "" {
+		tags = append(tags, "site:"+sp.SiteMode)
+	}
+	if kv["exq"] == "1" {
+		tags = append(tags, "rows-mention-excluded-host")
 	}
 	if sp.Seencheck && len(preprocessed) > len(deleted1) {
 		tags = append(tags, "seen-write-ahead")
@@ -316,6 +360,16 @@ func genCrash(r *Rng, i int, tier string) string {
 		s += fmt.Sprintf(" killms=%d", 300+r.Intn(2500))
 	case 4:
 		s += fmt.Sprintf(" stop=%s:%d", crashPoints[r.Intn(len(crashPoints))], 1+r.Intn(4))
+	}
+	// (drawn last, so that the choices above are what they were before these two dimensions existed)
+	if !strings.Contains(s, " mode=") && r.Chance(25) {
+		s += " mode=statuses" // seeds' own URLs answer 4xx / 5xx / half-marked challenge pages: kept by the discard policy
+		if r.Chance(40) {
+			s = strings.Replace(s, " retry=0", " retry=1", 1) // one more attempt on 408/429/5xx (the first back-off is 0 s)
+		}
+	}
+	if r.Chance(20) {
+		s += " exq=1" // rows whose path or query mentions an excluded host
 	}
 	return s
 }
